@@ -171,10 +171,14 @@ def make_fxp(P, signed, n_word, n_frac, codes=None, shape=(), cfg=None, status=N
     else:
         x.val = P.arr(list(codes), dtype=store_dtype(signed, n_word), shape=tuple(shape))
         fl = [float_of_code(c, n_frac) for c in codes]
+        wide = store_dtype(signed, n_word) is object
         if tuple(shape) == ():
-            x.real = A.SGen([fl[0]], _np.zeros((), dtype=int), A.F64) if P.symbolic else _np.float64(fl[0])
+            if wide:
+                x.real = fl[0]            # 0-d object arithmetic unwraps to a python float
+            else:
+                x.real = A.SGen([fl[0]], _np.zeros((), dtype=int), A.F64) if P.symbolic else _np.float64(fl[0])
         else:
-            x.real = P.arr(fl, dtype='float64', shape=tuple(shape))
+            x.real = P.arr(fl, dtype=object if wide else 'float64', shape=tuple(shape))
         if scale != 1 or bias != 0:
             x.real = x.real * scale + bias
         x.imag = 0
